@@ -674,6 +674,54 @@ pub fn run(args: &Args) {
             out::viol(&format!("C09/panic/all-dirty/{}", panic_sig(&p)), J::s(p));
         }
     }
+    // an operation applied to the result of a FAILED previous operation: an `enlarge` whose new
+    // byte size does not fit in usize panics in builds with overflow checks; the caller catches the
+    // panic and keeps using the bitmap, which must still be the set it was (same page count, same
+    // byte size, same marks; pages beyond the count ignored; a later valid enlarge works)
+    let overflow_checks_on = std::panic::catch_unwind(|| std::hint::black_box(255u8) + std::hint::black_box(1u8)).is_err();
+    if args.shard().0 == 0 && overflow_checks_on && !cfg!(miri) {
+        let r0 = guarded(|| {
+            for (bs, page, add) in [(1024usize, 128usize, usize::MAX - 512), (100, 7, usize::MAX - 99), (100, 7, usize::MAX), (3 * 4096 + 1, 4096, usize::MAX - 3 * 4096), (usize::MAX - 100, 1 << 62, 101), (usize::MAX - 100, 1 << 62, usize::MAX), (64 * 4096, 4096, usize::MAX - 64 * 4096 + 1), (5, 1, usize::MAX - 4)] {
+                let mut m = Model::new(bs, page);
+                let mut b = Arc::new(AtomicBitmap::new(bs, NonZeroUsize::new(page).unwrap()));
+                for op in [Op::SetBit(0), Op::SetBit(m.pages() - 1), Op::SetRange(page, page.saturating_add(1))] {
+                    if !apply(&mut b, &mut m, &op) {
+                        return;
+                    }
+                }
+                let failed = guarded(|| Arc::get_mut(&mut b).expect("unique").enlarge(add)).is_err();
+                if !failed {
+                    // (a build in which this sum does not panic: nothing to judge here)
+                    out::note("C09/failed-enlarge/did-not-fail", jobj! {"byte_size" => bs, "additional" => add});
+                    continue;
+                }
+                if !readout(&b, &m, "after-a-failed-enlarge") {
+                    return;
+                }
+                let pages = m.pages();
+                for op in [Op::SetBit(pages), Op::SetBit(pages + 1), Op::SetRange((pages - 1).saturating_mul(page), page.saturating_mul(3)), Op::MarkDirty(pages.saturating_mul(page), 1), Op::GetAndReset, Op::SetBit(pages), Op::GetAndReset] {
+                    if !apply(&mut b, &mut m, &op) {
+                        return;
+                    }
+                }
+                // a later enlarge that fits behaves like any other
+                if let Some(room) = usize::MAX.checked_sub(bs) {
+                    let small = room.min(page + 1);
+                    if small > 0 && bs.checked_add(small).map_or(false, |n| n.div_ceil(page) < (1 << 24)) {
+                        let last_after = (bs + small).div_ceil(page) - 1;
+                        if !apply(&mut b, &mut m, &Op::Enlarge(small)) || !apply(&mut b, &mut m, &Op::SetBit(last_after)) || !apply(&mut b, &mut m, &Op::GetAndReset) {
+                            return;
+                        }
+                    }
+                }
+                out::key(&format!("failed-enlarge|page{}|{}", if page == 1 { "1" } else if page.is_power_of_two() { "2^k" } else { "odd" }, if bs > usize::MAX / 2 { "huge" } else { "small" }), true);
+                out::eval(1);
+            }
+        });
+        if let Err(p) = r0 {
+            out::viol(&format!("C09/panic/failed-enlarge/{}", panic_sig(&p)), J::s(p));
+        }
+    }
     // page-count thresholds (auxiliary structures may appear above 2^12 / 2^16 / 2^18 / 2^20 pages):
     // bitmaps created just below / above a threshold, and small bitmaps with marks that are
     // ENLARGED across it, then harvested
